@@ -252,6 +252,8 @@ pub struct Ctx {
     /// exact replay only: the operands of the most recent constant division that produced each constant (so that an obligation
     /// posed on a destructured quotient, `ratio_parts`, is reached on replay too, where every term folds to a constant)
     pub div_parts: HashMap<u32, (u32, u32)>,
+    /// exact replay only: the argument of the most recent constant square root that produced each constant
+    pub sqrt_args: HashMap<u32, u32>,
     pub var_names: Vec<String>,
     var_ids: HashMap<String, u32>,
     // per-path state
@@ -422,7 +424,7 @@ impl Ctx {
     pub fn new(timeout_ms: u64) -> Self {
         Ctx {
             nodes: vec![], cons: HashMap::new(), deps: vec![], ndeps: vec![], nl: vec![], hd: vec![], defs: vec![], declared: vec![],
-            solver: Solver::new(timeout_ms), mode: Mode::Symbolic, exact_inputs: HashMap::new(), exact_default: BigRational::zero(), div_parts: HashMap::new(),
+            solver: Solver::new(timeout_ms), mode: Mode::Symbolic, exact_inputs: HashMap::new(), exact_default: BigRational::zero(), div_parts: HashMap::new(), sqrt_args: HashMap::new(),
             var_names: vec![], var_ids: HashMap::new(),
             pc: vec![], decisions: vec![], prefix: vec![], pending: vec![], trace: vec![], cache: HashMap::new(),
             stats: PathStats::default(), violations: vec![], max_decisions: 400, check_obligations: true, approx: false, n_inputs: 0, branch_nl_timeout_ms: timeout_ms, deadline: None, ticks: std::cell::Cell::new(0), pc_smt: vec![], levels: vec![], solver_epoch: 0, lin_memo: RefCell::new(HashMap::new()), n_lin_decided: std::cell::Cell::new(0), unit_box: Default::default(), alin_memo: RefCell::new(HashMap::new()), alin_old: RefCell::new(HashMap::new()), alin_weight: std::cell::Cell::new(0), poly_memo: RefCell::new(HashMap::new()), n_poly_decided: std::cell::Cell::new(0), rat_memo: RefCell::new(HashMap::new()), n_rat_decided: std::cell::Cell::new(0), rat_ok: std::cell::Cell::new(false), box_seq: 0, crosscheck_every: 0, ob_seq: 0, crosscheck: (0, 0, 0, vec![]), concolic: None, concretised: false, fval_memo: RefCell::new(HashMap::new()),
@@ -1285,6 +1287,7 @@ pub fn cf(f: f64) -> Sym {
 fn k(s: Sym) -> Option<BigRational> { with(|c| c.konst(s.0).cloned()) }
 fn node(s: Sym) -> Node { with(|c| c.nodes[s.0 as usize].clone()) }
 pub fn node_of(s: Sym) -> Node { node(s) }
+pub fn exact_sqrt_arg(s: Sym) -> Option<Sym> { with(|c| if c.mode == Mode::Exact { c.sqrt_args.get(&s.0).map(|a| Sym(*a)) } else { None }) }
 pub fn exact_div_parts(s: Sym) -> Option<(Sym, Sym)> { with(|c| if c.mode == Mode::Exact { c.div_parts.get(&s.0).map(|(a, b)| (Sym(*a), Sym(*b))) } else { None }) }
 pub fn konst_of(s: Sym) -> Option<BigRational> { k(s) }
 pub fn show(s: Sym) -> String { with(|c| c.show(s.0, 6)) }
@@ -1527,7 +1530,7 @@ impl num::Float for Sym {
     }
     fn powf(self, e: Sym) -> Sym { let _g = enter(); if let (Some(x), Some(y)) = (k(self), k(e)) { cf(rat_f64(&x).powf(rat_f64(&y))) } else { unsupported("powf") } }
     fn sqrt(self) -> Sym { let _g = enter();
-        if let Some(x) = k(self) { return match exact_sqrt(&x) { Some(r) => cst(r), None => { with(|c| if c.mode == Mode::Exact { c.approx = true }); cf(rat_f64(&x).sqrt()) } }; }
+        if let Some(x) = k(self) { let r = match exact_sqrt(&x) { Some(r) => cst(r), None => { with(|c| if c.mode == Mode::Exact { c.approx = true }); cf(rat_f64(&x).sqrt()) } }; with(|c| if c.mode == Mode::Exact { c.sqrt_args.insert(r.0, self.0); }); return r; }
         match node(self) { Node::NaN | Node::NInf => return nan(), Node::PInf => return self, _ => {} }
         if lt(self, zero()) { event(format!("sqrt of negative feasible: {}", show(self))); return nan(); }
         with(|c| Sym(c.mk(Node::Sqrt(self.0))))
